@@ -1,3 +1,3 @@
 Require Extraction. From Coq Require Import ExtrOcamlBasic NArith ZArith.
 From KV Require Import Model.Lifecycle.
-Extraction "c09r_model.ml" step init cfg_p cfg_g mon_after_close mon_late_fetch mon_late_commit mon_silent mon_leave mon_leave_strict C09R_holds live conns close_returned is_env is_clock is_race N.succ Z.succ.
+Extraction "c09r_model.ml" step init cfg_p cfg_g mon_after_close mon_late_fetch mon_late_commit mon_silent mon_leave C09R_holds live conns close_returned is_env is_clock is_race N.succ Z.succ.
